@@ -199,9 +199,9 @@ Proofs/StCallsTyping.vos Proofs/StCallsTyping.vok Proofs/StCallsTyping.required_
 Proofs/StProofs.vo Proofs/StProofs.glob Proofs/StProofs.v.beautified Proofs/StProofs.required_vo: Proofs/StProofs.v Model/StCore.vo Model/StTyping.vo
 Proofs/StProofs.vio: Proofs/StProofs.v Model/StCore.vio Model/StTyping.vio
 Proofs/StProofs.vos Proofs/StProofs.vok Proofs/StProofs.required_vos: Proofs/StProofs.v Model/StCore.vos Model/StTyping.vos
-Properties/C01.vo Properties/C01.glob Properties/C01.v.beautified Properties/C01.required_vo: Properties/C01.v Model/StCore.vo Model/StTyping.vo Proofs/StProofs.vo Model/StCalls.vo Proofs/StCallsProofs.vo
-Properties/C01.vio: Properties/C01.v Model/StCore.vio Model/StTyping.vio Proofs/StProofs.vio Model/StCalls.vio Proofs/StCallsProofs.vio
-Properties/C01.vos Properties/C01.vok Properties/C01.required_vos: Properties/C01.v Model/StCore.vos Model/StTyping.vos Proofs/StProofs.vos Model/StCalls.vos Proofs/StCallsProofs.vos
+Properties/C01.vo Properties/C01.glob Properties/C01.v.beautified Properties/C01.required_vo: Properties/C01.v Model/StCore.vo Model/StTyping.vo Proofs/StProofs.vo Model/StCalls.vo Proofs/StCallsProofs.vo Proofs/StCallsTyping.vo
+Properties/C01.vio: Properties/C01.v Model/StCore.vio Model/StTyping.vio Proofs/StProofs.vio Model/StCalls.vio Proofs/StCallsProofs.vio Proofs/StCallsTyping.vio
+Properties/C01.vos Properties/C01.vok Properties/C01.required_vos: Properties/C01.v Model/StCore.vos Model/StTyping.vos Proofs/StProofs.vos Model/StCalls.vos Proofs/StCallsProofs.vos Proofs/StCallsTyping.vos
 Properties/C02.vo Properties/C02.glob Properties/C02.v.beautified Properties/C02.required_vo: Properties/C02.v Model/StCore.vo Model/StTyping.vo Model/StRef.vo Proofs/StProofs.vo Proofs/C02Proofs.vo Proofs/C02Refine.vo
 Properties/C02.vio: Properties/C02.v Model/StCore.vio Model/StTyping.vio Model/StRef.vio Proofs/StProofs.vio Proofs/C02Proofs.vio Proofs/C02Refine.vio
 Properties/C02.vos Properties/C02.vok Properties/C02.required_vos: Properties/C02.v Model/StCore.vos Model/StTyping.vos Model/StRef.vos Proofs/StProofs.vos Proofs/C02Proofs.vos Proofs/C02Refine.vos
